@@ -159,6 +159,28 @@ theorem fromSamples_repeat (o : Options) (hno : o.allow_to_string = false) (xs :
       | error _ => rfl
       | ok b' => rw [(fromSamplesTracer_ok.mp hf).1] at h2; cases h2
 
+/-! ### the statements of DESIGN.md section 5 -/
+
+/-- `C07_permutation_partial`: two permutations of a sample collection that both trace successfully give equivalent
+schemas.  Partial: proved for `allow_to_string = false` (then success itself is order independent,
+`C07_success_order`); MISSING: `allow_to_string = true` for nested samples (proved at leaf positions only:
+`leaf_order_and_repetition`) -/
+theorem C07_permutation_partial (o : Options) (hno : o.allow_to_string = false) {xs ys : List SVal} (hp : xs.Perm ys)
+    {s₁ s₂ : List Field} (h1 : fromSamples .fixed o xs = .ok s₁) (h2 : fromSamples .fixed o ys = .ok s₂) :
+    Spec.schemaEquiv s₁ s₂ = true := by
+  rcases fromSamples_perm o hno hp with ⟨s, s', e1, e2, he⟩ | ⟨e1, _⟩
+  · rw [h1] at e1; rw [h2] at e2; cases e1; cases e2; exact he
+  · rw [h1] at e1; cases e1
+
+/-- `C07_success_order`: unless `allow_to_string`, success does not depend on the order of the collection -/
+theorem C07_success_order (o : Options) (hno : o.allow_to_string = false) {xs ys : List SVal} (hp : xs.Perm ys) :
+    (fromSamples .fixed o xs).isOk = (fromSamples .fixed o ys).isOk := fromSamples_success_order o hno hp
+
+/-- `C07_repeat_partial`: tracing a collection twice fails iff tracing it once fails and otherwise gives an equivalent
+schema.  Partial: MISSING `allow_to_string = true` for nested samples (leaf positions: `leaf_repeat`) -/
+theorem C07_repeat_partial (o : Options) (hno : o.allow_to_string = false) (xs : List SVal) :
+    SchemaOutEq' (fromSamples .fixed o (xs ++ xs)) (fromSamples .fixed o xs) := fromSamples_repeat o hno xs
+
 /-! ### the side condition is needed; non-vacuity -/
 
 /-- with `allow_to_string` the swap law fails: at a position that has seen a `bool`, `"x"` then `1i64` is accepted
